@@ -12,6 +12,7 @@ import shutil
 
 import numpy as np
 
+from mc import alphabets as al
 from mc import gridmc, samplers, vrng
 from mc.core import Result, digest, enc
 
@@ -91,6 +92,12 @@ def job(cfg):
     cell = "%s/steps%d-ene%d-sr%d" % (wt, cfg["n_steps"], cfg["n_ene"], cfg["n_sr"])
     for nbatch in ((1, 2) if not cfg.get("dup") else (1,)):
         B = samplers.build(sysd, wt, NW, dt=dt, n_batch=nbatch)
+        if (cfg["n_steps"] + cfg["n_ene"] + cfg["n_sr"]) % 2 == 0:
+            # in half of the cells the density supplied for the mean-field shift is not the trial's own (a legal input):
+            # every entry point must keep using the SUPPLIED one, with or without orbital relaxation
+            pert = 0.06 * al.dense_sym(n, cfg["seed"], 37)
+            B = samplers.with_rdm1(B, np.asarray(B["wave_data"]["rdm1"]) + np.array([pert, pert]))
+            res.guard("cells_with_a_supplied_density_other_than_the_trials", 1)
         pd0 = samplers.fresh_prop_data(B, vrng.key(0))
         e_true = float(pd0["e_estimate"])
         for entry in ENTRIES:
